@@ -377,3 +377,60 @@ Definition check (c : case) : bool :=
          list_eqb oout_eqb (map obs_out os) outs && final_ok st final
        end
   end.
+
+(* ---- vocabulary of the property statements (Props/C02.v) ------------------
+   Histories are lists of events; a packet event belongs to group g when its flag word carries g. *)
+Section Spec.
+  Context {A : Type}.
+
+  (* the number of fragments Session.write builds for n *)
+  Definition nfrag (F : Z) (n : packet A) : Z := size n / F + 1.
+
+  Definition is_own (g : Z) (e : ev A) : bool :=
+    match e with EvPkt p => f_group (p_flags p) =? g | EvSweep => false end.
+  (* the packets of group g in arrival order *)
+  Fixpoint own_pkts (g : Z) (evs : list (ev A)) : list (packet A) :=
+    match evs with
+    | [] => []
+    | EvPkt p :: r => if f_group (p_flags p) =? g then p :: own_pkts g r else own_pkts g r
+    | EvSweep :: r => own_pkts g r
+    end.
+  (* what the receiver did at exactly those arrivals *)
+  Fixpoint own_outs (g : Z) (evs : list (ev A)) (os : list (out A)) : list (out A) :=
+    match evs, os with
+    | e :: r, o :: os' => if is_own g e then o :: own_outs g r os' else own_outs g r os'
+    | _, _ => []
+    end.
+
+  (* pacing: between two successive arrivals of group g there are fewer than fragMaxMisses wake-ups
+     (c = wake-ups since the last arrival of g); wake-ups before the first and after the last
+     arrival of g are free *)
+  Fixpoint paced_from (g c : Z) (evs : list (ev A)) : bool :=
+    match evs with
+    | [] => true
+    | EvPkt p :: r => if f_group (p_flags p) =? g then paced_from g 0 r else paced_from g c r
+    | EvSweep :: r => if existsb (is_own g) r then (c + 1 <? fragMaxMisses) && paced_from g (c + 1) r else true
+    end.
+  Fixpoint paced (g : Z) (evs : list (ev A)) : bool :=
+    match evs with
+    | [] => true
+    | EvPkt p :: r => if f_group (p_flags p) =? g then paced_from g 0 r else paced g r
+    | EvSweep :: r => paced g r
+    end.
+
+  (* what reaches the handler: the original with the three 16-bit fields of the flag word zero,
+     FlagFrag cleared (Flag.Clear) and without tags (fragments never carry the tags of the original) *)
+  Definition reassembled (n : packet A) : packet A :=
+    mkPacket (p_id n) (p_job n) (p_dev n) (mkFlags 0 0 0 (Z.lxor (Z.lor (f_bits (p_flags n)) 1) 1)) 0 (p_data n).
+
+  (* n is an ordinary packet for the Session `self`: addressed to it, not a system packet
+     (ID >= MvRefresh) and not a Multi container *)
+  Definition addressed (self : Z) (n : packet A) : Prop :=
+    p_dev n = self /\ self <> 0 /\ MvRefresh <= p_id n /\ has_multi (p_flags n) = false.
+
+  Definition is_deliver (o : out A) : bool := match o with ODeliver _ => true | _ => false end.
+
+  (* every cluster was touched at most fragMaxMisses wake-ups ago (holds in every reachable state) *)
+  Definition counters_ok (st : state A) : Prop :=
+    Forall (fun kc : Z * cluster A => 1 <= c_c (snd kc) <= fragMaxMisses) st.
+End Spec.
